@@ -885,8 +885,8 @@ def D4(m, R):
                     mem = a.func.value.attr
                     got.append(setup.get(e.canon(mem) if e.has(mem) else mem, '?' + mem))
                     an = [norm(x) for x in a.args]
-                    if an != argnames:
-                        bad_args = an
+                    if base != 'rgb' and an != argnames:
+                        bad_args = an            # (for rgb the three values are checked by the clamp / split obligations below)
                 else:
                     try:
                         got.append(F.fold(a))
@@ -898,18 +898,91 @@ def D4(m, R):
             if bad_args is not None:
                 problems.append('colour arguments %s, expected %s' % (bad_args, argnames))
             R.check(not problems, f, rets[0], '%s -> %r + (%s)' % (comp, exp, ', '.join(argnames)), '; '.join(problems), construct=cons)
-    # clamp and split in rgb
+    # clamp and split in rgb: the three arguments handed to the colour function, evaluated for the three-value form (g and b given) and for
+    # the packed form (g and b None) with every local written as what it stands for
     f = m.fn('_AnsiControlFn.rgb')
-    src = {'r': f.params[0], 'g': f.params[1], 'b': f.params[2]}
-    clamp, split = {}, {}
-    for n in f.walk():
-        if isinstance(n, ast.Assign) and len(n.targets) == 1 and isinstance(n.targets[0], ast.Name) and n.targets[0].id in src:
-            v = n.value
-            t = n.targets[0].id
-            if isinstance(v, ast.Call) and call_name(v) in ('min', 'max'):
-                clamp[t] = n
-            elif isinstance(v, ast.BinOp):
-                split[t] = n
+    P0, P1, P2 = f.params[:3]
+    from ..inline import _subst as subst_once
+    from ..finite import Undecided as _Und
+
+    def rgb_args(form, comp):
+        facts = {P1: form == 'three', P2: form == 'three'}          # parameter is not None?
+
+        def dec(t):
+            if isinstance(t, ast.BoolOp):
+                vs = [dec(v) for v in t.values]
+                if isinstance(t.op, ast.And):
+                    return False if any(v is False for v in vs) else True if all(v is True for v in vs) else None
+                return True if any(v is True for v in vs) else False if all(v is False for v in vs) else None
+            if isinstance(t, ast.UnaryOp) and isinstance(t.op, ast.Not):
+                v = dec(t.operand)
+                return None if v is None else not v
+            if isinstance(t, ast.Compare) and len(t.ops) == 1:
+                l, r_, op = t.left, t.comparators[0], t.ops[0]
+                if isinstance(op, (ast.Is, ast.IsNot)) and const_val(r_, 0) is None and isinstance(l, ast.Name):
+                    if l.id in facts:
+                        return (not facts[l.id]) if isinstance(op, ast.Is) else facts[l.id]
+                    if l.id == P0:
+                        return isinstance(op, ast.IsNot)          # the first value is given in both forms
+                if {norm(l), norm(r_)} == {P1, P2} and isinstance(op, (ast.NotEq, ast.Eq, ast.Is, ast.IsNot)) and form == 'packed':
+                    return isinstance(op, (ast.Eq, ast.Is))      # both None
+            if 'component' in names_in(t):
+                return decide(t, comp)
+            return None
+
+        def run(stmts, env):
+            for st in stmts:
+                if isinstance(st, ast.If):
+                    v = dec(subst_once(st.test, {k: x for k, x in env.items() if k not in (P0, P1, P2)}))
+                    if v is None:
+                        if any(isinstance(x, (ast.Return, ast.Assign, ast.AugAssign)) for x in ast.walk(st)):
+                            raise _Und('test %s' % short(st.test))
+                        continue
+                    r_ = run(st.body if v else st.orelse, env)
+                    if r_ is not None:
+                        return r_
+                elif isinstance(st, ast.Raise):
+                    return 'raise'
+                elif isinstance(st, ast.Return):
+                    return subst_once(st.value, env) if st.value is not None else 'none'
+                elif isinstance(st, ast.Assign) and len(st.targets) == 1:
+                    t_, v_ = st.targets[0], subst_once(st.value, env)
+                    if isinstance(v_, ast.Call) and call_name(v_) in ('tuple', 'list') and len(v_.args) == 1 and isinstance(v_.args[0], (ast.Tuple, ast.List)):
+                        v_ = v_.args[0]
+                    while isinstance(v_, ast.IfExp) and dec(v_.test) is not None:
+                        v_ = v_.body if dec(v_.test) else v_.orelse
+                    if isinstance(t_, ast.Name):
+                        env[t_.id] = v_
+                    elif isinstance(t_, (ast.Tuple, ast.List)) and isinstance(v_, (ast.Tuple, ast.List)) and len(t_.elts) == len(v_.elts) and \
+                            all(isinstance(x, ast.Name) for x in t_.elts):
+                        for x, y in zip(t_.elts, v_.elts):
+                            env[x.id] = y
+                    else:
+                        raise _Und('assignment %s' % short(st))
+                elif isinstance(st, ast.Expr) and isinstance(st.value, ast.Call) and isinstance(st.value.func, ast.Attribute) and \
+                        isinstance(st.value.func.value, ast.Name) and isinstance(env.get(st.value.func.value.id), ast.List) and st.value.func.attr == 'append' and st.value.args:
+                    L_ = env[st.value.func.value.id]
+                    env[st.value.func.value.id] = ast.List(elts=list(L_.elts) + [subst_once(st.value.args[0], env)], ctx=ast.Load())
+                elif isinstance(st, ast.Expr) and isinstance(st.value, ast.Constant):
+                    continue
+                else:
+                    raise _Und('statement %s' % short(st))
+            return None
+        ret = run(f.body, {})
+        if ret in (None, 'raise', 'none'):
+            raise _Und('no value is returned in the %s form' % form)
+        calls = [x for x in ast.walk(ret) if isinstance(x, ast.Call) and isinstance(x.func, ast.Attribute) and x.func.attr == 'fn']
+        if len(calls) != 1:
+            raise _Und('the returned value %s does not call one colour function' % short(ret))
+        args = []
+        for a_ in calls[0].args:
+            if isinstance(a_, ast.Starred) and isinstance(a_.value, (ast.Tuple, ast.List)):
+                args.extend(a_.value.elts)
+            elif isinstance(a_, ast.Starred):
+                raise _Und('starred argument %s' % short(a_))
+            else:
+                args.append(a_)
+        return args, calls[0]
 
     def clamp_ok(v, source):
         # min(255, max(0, x)) / max(0, min(255, x)) up to argument order
@@ -929,29 +1002,45 @@ def D4(m, R):
             return False
         bounds = {o[0]: o[1], i[0]: i[1]}
         return bounds == {'min': 255, 'max': 0} and norm(i[2]) == source
-    for t in ('r', 'g', 'b'):
-        n = clamp.get(t)
-        if n is None:
-            R.viol(f, f.node, 'component %s is not clamped to 0..255 in the three-value form' % t, construct='rgb clamp ' + t)
-        else:
-            R.check(clamp_ok(n.value, src[t]), f, n, '%s = clamp(%s, 0, 255)' % (t, src[t]), '%s = %s is not a clamp of %s to 0..255' % (t, short(n.value), src[t]),
-                    construct='rgb clamp ' + t)
-    want_split = {'r': (0xFF0000, 16), 'g': (0x00FF00, 8), 'b': (0x0000FF, 0)}
-    for t, (mask, shift) in want_split.items():
-        n = split.get(t)
-        if n is None:
-            R.viol(f, f.node, 'component %s is not split out of the 24-bit value' % t, construct='rgb split ' + t)
-            continue
-        v = n.value
+
+    def split_ok(v, mask, shift):
         got_shift = 0
-        if isinstance(v.op, ast.RShift):
+        if isinstance(v, ast.BinOp) and isinstance(v.op, ast.RShift):
             got_shift = const_val(v.right)
             v = v.left
-        ok = isinstance(v, ast.BinOp) and isinstance(v.op, ast.BitAnd) and \
-            {norm(v.left), norm(v.right)} - {src['r']} and (const_val(v.left) == mask or const_val(v.right) == mask) and \
-            (norm(v.left) == src['r'] or norm(v.right) == src['r']) and got_shift == shift
-        R.check(bool(ok), f, n, '%s = (%s & %#08x) >> %d' % (t, src['r'], mask, shift), '%s = %s; expected mask %#08x shift %d of %s' % (t, short(n.value), mask, shift, src['r']),
-                construct='rgb split ' + t)
+        return isinstance(v, ast.BinOp) and isinstance(v.op, ast.BitAnd) and (const_val(v.left) == mask or const_val(v.right) == mask) and \
+            (norm(v.left) == P0 or norm(v.right) == P0) and got_shift == shift
+    forms = {}
+    for form in ('three', 'packed'):
+        try:
+            forms[form] = rgb_args(form, 'FOREGROUND')
+        except _Und as ex:
+            forms[form] = ex
+    names3 = ('r', 'g', 'b')
+    for i_, (t, srcp) in enumerate(zip(names3, (P0, P1, P2))):
+        cons = 'rgb clamp ' + t
+        got = forms['three']
+        if isinstance(got, Exception):
+            R.undecided(f, f.node, 'three-value form not evaluated: %s' % got, construct=cons)
+        elif len(got[0]) != 3:
+            R.viol(f, got[1], 'the colour function receives %d arguments in the three-value form' % len(got[0]), construct=cons)
+        else:
+            R.check(clamp_ok(got[0][i_], srcp), f, got[1], 'argument %d is clamp(%s, 0, 255)' % (i_ + 1, srcp),
+                    'in the three-value form argument %d of the colour function is %s, not %s clamped to 0..255' % (i_ + 1, short(got[0][i_]), srcp), construct=cons)
+    want_split = {'r': (0xFF0000, 16), 'g': (0x00FF00, 8), 'b': (0x0000FF, 0)}
+    for i_, t in enumerate(names3):
+        mask, shift = want_split[t]
+        cons = 'rgb split ' + t
+        got = forms['packed']
+        if isinstance(got, Exception):
+            R.undecided(f, f.node, 'packed form not evaluated: %s' % got, construct=cons)
+        elif len(got[0]) != 3:
+            R.viol(f, got[1], 'the colour function receives %d arguments in the packed form' % len(got[0]), construct=cons)
+        else:
+            R.check(split_ok(got[0][i_], mask, shift), f, got[1], 'argument %d is (%s & %#08x) >> %d' % (i_ + 1, P0, mask, shift),
+                    'in the packed form argument %d of the colour function is %s; expected mask %#08x shift %d of %s' % (i_ + 1, short(got[0][i_]), mask, shift, P0),
+                    construct=cons)
+    src = {'r': P0, 'g': P1, 'b': P2}
     # both-or-neither guard
     guard_ok = False
     for n in f.walk():
